@@ -2,6 +2,7 @@ package main
 
 import (
 	"fmt"
+	"os"
 	"runtime/debug"
 	"sort"
 	"strings"
@@ -25,6 +26,10 @@ type HarnessCfg struct {
 	Workers        int
 	Witnesses      int
 	Fallbacks      []string
+	WallS          int
+	Progress       bool
+	NoModelCache   bool
+	Concretize     map[string][]string // function name -> parameters to concretise on entry
 	FallbackS      int
 }
 
@@ -71,6 +76,7 @@ type HarnessResult struct {
 	IfConverted     int
 	Concretisations int
 	UnknownFeas     int
+	ModelHits       int
 	AssertQueries   int
 	Steps           int64
 	Asserts         map[string]*AssertStat
@@ -109,6 +115,7 @@ func (r *HarnessResult) merge(o *HarnessResult) {
 	r.IfConverted += o.IfConverted
 	r.Concretisations += o.Concretisations
 	r.UnknownFeas += o.UnknownFeas
+	r.ModelHits += o.ModelHits
 	r.AssertQueries += o.AssertQueries
 	r.Steps += o.Steps
 	for k, v := range o.Asserts {
@@ -161,6 +168,8 @@ type sched struct {
 	done    bool
 	paths   int64
 	maxPath int64
+	deadline time.Time
+	wallS    int
 	stop    int32
 }
 
@@ -276,6 +285,12 @@ func (w *worker) runItem(prefix []decision, res *HarnessResult) {
 		if atomic.LoadInt32(&w.sc.stop) != 0 {
 			return
 		}
+		if !w.sc.deadline.IsZero() && time.Now().After(w.sc.deadline) {
+			res.PathLimitHit = true
+			res.addInconclusive(fmt.Sprintf("wall-clock budget %ds exhausted", w.sc.wallS))
+			atomic.StoreInt32(&w.sc.stop, 1)
+			return
+		}
 		if n := atomic.AddInt64(&w.sc.paths, 1); n > w.sc.maxPath {
 			res.PathLimitHit = true
 			res.addInconclusive(fmt.Sprintf("path budget %d exhausted", w.sc.maxPath))
@@ -320,6 +335,8 @@ func (w *worker) runPath(res *HarnessResult) {
 	in.cl = &cloner{objs: map[*Object]*Object{}, maps: map[*MapObj]*MapObj{}, chans: map[*ChanObj]*ChanObj{}, in: in}
 	in.nextObj = 1 << 20
 	in.tb.nfresh = 0
+	in.ev = newEvaluator(map[*Term]uint64{}) // the all-zero assignment satisfies the empty path condition
+	in.trusted = nil
 	in.sched = w.sc
 	kind := "ok"
 	var gp *goPanic
@@ -411,6 +428,26 @@ func exploreHarness(ld *Loaded, fn *ssa.Function, cfg *HarnessCfg, thorough bool
 	total := newResult(fn.Name())
 	nw := cfg.Workers
 	sc := newSched(nw, cfg.MaxPaths)
+	if cfg.WallS > 0 {
+		sc.deadline = t0.Add(time.Duration(cfg.WallS) * time.Second)
+		sc.wallS = cfg.WallS
+	}
+	stopProgress := make(chan struct{})
+	if cfg.Progress {
+		go func() {
+			tk := time.NewTicker(15 * time.Second)
+			defer tk.Stop()
+			for {
+				select {
+				case <-stopProgress:
+					return
+				case <-tk.C:
+					fmt.Fprintf(os.Stderr, "  ... %s: %d paths started, %.0fs\n", fn.Name(), atomic.LoadInt64(&sc.paths), time.Since(t0).Seconds())
+				}
+			}
+		}()
+	}
+	defer close(stopProgress)
 	var wg sync.WaitGroup
 	var mu sync.Mutex
 	for i := 0; i < nw; i++ {
